@@ -392,8 +392,12 @@ def _bind(gnode, call, is_method):
         raise NotInlineable('too many arguments')
     m = dict(zip(pos, call.args))
     kwonly = [x.arg for x in a.kwonlyargs]
+    extra = []
     for k in call.keywords:
         if k.arg is None:
+            continue
+        if k.arg not in m and k.arg not in pos + kwonly and a.kwarg and not stars:
+            extra.append(k)          # collected by the helper's **kwargs
             continue
         if k.arg in m or k.arg not in pos + kwonly:
             raise NotInlineable('keyword mismatch')
@@ -409,8 +413,74 @@ def _bind(gnode, call, is_method):
         raise NotInlineable('unbound parameter')
     if a.kwarg:
         # f(**kwargs) handed on as helper(**kwargs): the helper's dictionary is the caller's; without one it is empty
-        m[a.kwarg.arg] = stars[0].value if stars else ast.Dict(keys=[], values=[])
+        m[a.kwarg.arg] = stars[0].value if stars else ast.Dict(keys=[ast.Constant(value=k.arg) for k in extra], values=[k.value for k in extra])
     return m
+
+
+def _fold_flags(body, consts):
+    """write literal flag arguments (True / False / None) into a helper body and fold the tests they decide"""
+    class Sub(ast.NodeTransformer):
+        def visit_Name(self, n):
+            if isinstance(n.ctx, ast.Load) and n.id in consts:
+                return ast.copy_location(ast.Constant(value=consts[n.id].value), n)
+            return n
+
+        def visit_FunctionDef(self, n):
+            return n
+
+        def visit_Lambda(self, n):
+            return n
+
+    def truth(t):
+        if isinstance(t, ast.Constant):
+            return bool(t.value)
+        if isinstance(t, ast.UnaryOp) and isinstance(t.op, ast.Not):
+            r = truth(t.operand)
+            return None if r is None else (not r)
+        if isinstance(t, ast.Compare) and len(t.ops) == 1 and isinstance(t.left, ast.Constant) and isinstance(t.comparators[0], ast.Constant) \
+                and isinstance(t.ops[0], (ast.Is, ast.IsNot)) and (t.left.value is None or t.comparators[0].value is None):
+            same = t.left.value is t.comparators[0].value
+            return same if isinstance(t.ops[0], ast.Is) else not same
+        if isinstance(t, ast.BoolOp):
+            vals = [truth(v) for v in t.values]
+            if isinstance(t.op, ast.And):
+                if any(v is False for v in vals):
+                    return False
+                return True if all(v is True for v in vals) else None
+            if any(v is True for v in vals):
+                return True
+            return False if all(v is False for v in vals) else None
+        return None
+
+    class Fold(ast.NodeTransformer):
+        def visit_If(self, n):
+            self.generic_visit(n)
+            r = truth(n.test)
+            if r is None:
+                if isinstance(n.test, ast.BoolOp):      # drop the decided operands of a mixed test
+                    keep = [v for v in n.test.values if truth(v) is None]
+                    if len(keep) == 1:
+                        n.test = keep[0]
+                    elif keep:
+                        n.test.values = keep
+                return n
+            return (n.body if r else n.orelse) or [ast.copy_location(ast.Pass(), n)]
+
+        def visit_IfExp(self, n):
+            self.generic_visit(n)
+            r = truth(n.test)
+            return n if r is None else (n.body if r else n.orelse)
+
+        def visit_FunctionDef(self, n):
+            return n
+
+    out = []
+    for st in body:
+        st = Sub().visit(st)
+        r = Fold().visit(st)
+        out.extend(r if isinstance(r, list) else [r])
+    out = [st for i, st in enumerate(out) if not (isinstance(st, ast.Pass) and len(out) > 1)]
+    return out
 
 
 def splice(gnode, call, target_kind, target, caller_locals, is_method=False):
@@ -423,12 +493,13 @@ def splice(gnode, call, target_kind, target, caller_locals, is_method=False):
     gparams, glocals = local_names(gnode)
     rename = {}
     pre = []
+    consts = {}
     for p, arg in binding.items():
         if isinstance(arg, ast.Name) and p not in stored:
             if arg.id != p:
                 rename[p] = arg.id
-        elif isinstance(arg, ast.Constant) and p not in stored:
-            pre.append(ast.Assign(targets=[ast.Name(id=p, ctx=ast.Store())], value=copy.deepcopy(arg), lineno=call.lineno, col_offset=0))
+        elif isinstance(arg, ast.Constant) and p not in stored and isinstance(arg.value, (bool, type(None))):
+            consts[p] = arg          # a flag: written into the body, and the branches it decides are folded
         else:
             pre.append(ast.Assign(targets=[ast.Name(id=p, ctx=ast.Store())], value=copy.deepcopy(arg), lineno=call.lineno, col_offset=0))
     # helper locals (and parameters bound by assignment) must not collide with other names of the caller
@@ -449,6 +520,8 @@ def splice(gnode, call, target_kind, target, caller_locals, is_method=False):
         for st in pre:
             if st.targets[0].id in rename:
                 st.targets[0].id = rename[st.targets[0].id]
+    if consts:
+        body = _fold_flags(body, consts)
 
     def make_result(value):
         v = value if value is not None else ast.Constant(value=None)
@@ -960,6 +1033,35 @@ def unroll_constant_loops(tree):
     return n_done[0]
 
 
+class _SimplifySubstituted(ast.NodeTransformer):
+    """after a constant was written into an expression: `'a' == 'b'` is decided, the conditional expression it selects is
+    taken, and `getattr(x, 'name')` is the attribute `x.name`"""
+    def visit_Compare(self, n):
+        self.generic_visit(n)
+        if len(n.ops) == 1 and isinstance(n.left, ast.Constant) and isinstance(n.comparators[0], ast.Constant) \
+                and isinstance(n.ops[0], (ast.Eq, ast.NotEq)) and type(n.left.value) is type(n.comparators[0].value):
+            r = n.left.value == n.comparators[0].value
+            return ast.copy_location(ast.Constant(value=r if isinstance(n.ops[0], ast.Eq) else not r), n)
+        if len(n.ops) == 1 and isinstance(n.left, ast.Constant) and isinstance(n.ops[0], (ast.In, ast.NotIn)) \
+                and isinstance(n.comparators[0], (ast.Tuple, ast.List, ast.Set)) and all(isinstance(e, ast.Constant) for e in n.comparators[0].elts):
+            r = n.left.value in [e.value for e in n.comparators[0].elts]
+            return ast.copy_location(ast.Constant(value=r if isinstance(n.ops[0], ast.In) else not r), n)
+        return n
+
+    def visit_IfExp(self, n):
+        self.generic_visit(n)
+        if isinstance(n.test, ast.Constant) and isinstance(n.test.value, bool):
+            return n.body if n.test.value else n.orelse
+        return n
+
+    def visit_Call(self, n):
+        self.generic_visit(n)
+        if isinstance(n.func, ast.Name) and n.func.id == 'getattr' and len(n.args) == 2 and not n.keywords \
+                and isinstance(n.args[1], ast.Constant) and isinstance(n.args[1].value, str) and n.args[1].value.isidentifier():
+            return ast.copy_location(ast.Attribute(value=n.args[0], attr=n.args[1].value, ctx=ast.Load()), n)
+        return n
+
+
 def unroll_constant_comprehensions(tree):
     """`[f(c) for c in (a, b, c)]` (the sequence a display of at most 8 elements, directly or through a local bound once to one;
     also `zip` of such displays) -> the display `[f(a), f(b), f(c)]`"""
@@ -986,9 +1088,48 @@ def unroll_constant_comprehensions(tree):
         out.update({k: v for k, v in val.items() if cnt.get(k) == 1})
         return out
 
+    # class-level constant tuples read as self.X / cls.X inside the methods of the class: bound once in one class body of the
+    # module, never stored through an attribute anywhere in the module
+    attr_stores = {n.attr for n in ast.walk(tree) if isinstance(n, ast.Attribute) and not isinstance(n.ctx, ast.Load)}
+    class_consts = {}          # id(method node) -> (first parameter, {attr: display})
+    cdefs = {}
+    for cls_ in [n for n in ast.walk(tree) if isinstance(n, ast.ClassDef)]:
+        for st in cls_.body:
+            if isinstance(st, ast.Assign) and len(st.targets) == 1 and isinstance(st.targets[0], ast.Name):
+                cdefs.setdefault(st.targets[0].id, []).append((cls_, st.value))
+    all_classes = {n.name: n for n in ast.walk(tree) if isinstance(n, ast.ClassDef)}
+
+    def ancestors(c):
+        out, todo = set(), [c]
+        while todo:
+            for b in todo.pop().bases:
+                if isinstance(b, ast.Name) and b.id in all_classes and b.id not in out:
+                    out.add(b.id)
+                    todo.append(all_classes[b.id])
+        return out
+    for nm, lst in cdefs.items():
+        owners = [c.name for c, _ in lst]
+        if len(set(owners)) != len(owners) or nm in attr_stores:
+            continue
+        # a subclass of an owner that is itself an owner overrides the constant: `self.X` is then not decided by the class body
+        related = any(set(owners) & ancestors(c) for c, _ in lst)
+        if related:
+            continue
+        for cls_, val in lst:
+            if not (isinstance(val, (ast.Tuple, ast.List)) and all(isinstance(e, ast.Constant) for e in val.elts)):
+                continue
+            for m_ in cls_.body:
+                if isinstance(m_, (ast.FunctionDef, ast.AsyncFunctionDef)) and m_.args.args and \
+                        not any(isinstance(d, ast.Name) and d.id == 'staticmethod' for d in m_.decorator_list):
+                    class_consts.setdefault(id(m_), (m_.args.args[0].arg, {}))[1][nm] = val
+    cur_method = [None]
+
     def seq_of(it, disp):
         if isinstance(it, ast.Name) and it.id in disp:
             it = disp[it.id]
+        cc = class_consts.get(id(cur_method[0]))
+        if cc and isinstance(it, ast.Attribute) and isinstance(it.value, ast.Name) and it.value.id == cc[0] and it.attr in cc[1]:
+            it = cc[1][it.attr]
         if isinstance(it, (ast.Tuple, ast.List)) and 1 <= len(it.elts) <= 16 and not any(isinstance(e, ast.Starred) for e in it.elts):
             return [[e] for e in it.elts]
         if isinstance(it, ast.Call) and isinstance(it.func, ast.Name) and it.func.id == 'zip' and it.args and not it.keywords:
@@ -998,6 +1139,7 @@ def unroll_constant_comprehensions(tree):
         return None
 
     for fnode in [n for n in ast.walk(tree) if isinstance(n, (ast.FunctionDef, ast.AsyncFunctionDef))]:
+        cur_method[0] = fnode
         for _round in range(3):
             disp = displays(fnode)
             changed = [False]
@@ -1028,7 +1170,7 @@ def unroll_constant_comprehensions(tree):
                                 if n.id in m and isinstance(n.ctx, ast.Load):
                                     return ast.copy_location(copy.deepcopy(m[n.id]), n)
                                 return n
-                        elts.append(S().visit(copy.deepcopy(c.elt)))
+                        elts.append(_SimplifySubstituted().visit(S().visit(copy.deepcopy(c.elt))))
                     changed[0] = True
                     n_done[0] += 1
                     return ast.copy_location(ast.List(elts=elts, ctx=ast.Load()), c)
@@ -1053,8 +1195,8 @@ def unroll_constant_comprehensions(tree):
                                 if n.id in m and isinstance(n.ctx, ast.Load):
                                     return ast.copy_location(copy.deepcopy(m[n.id]), n)
                                 return n
-                        keys.append(S().visit(copy.deepcopy(c.key)))
-                        vals.append(S().visit(copy.deepcopy(c.value)))
+                        keys.append(_SimplifySubstituted().visit(S().visit(copy.deepcopy(c.key))))
+                        vals.append(_SimplifySubstituted().visit(S().visit(copy.deepcopy(c.value))))
                     changed[0] = True
                     n_done[0] += 1
                     return ast.copy_location(ast.Dict(keys=keys, values=vals), c)
@@ -1151,10 +1293,42 @@ def dict_displays(tree):
     return n_done
 
 
+def property_assignments(tree):
+    """`def _get_x(self): ...` followed by `x = property(_get_x)` in a class body is the decorated definition `@property def x`:
+    the getter is a function of the same class body that nothing else in the module refers to"""
+    count = 0
+    for cls in [n for n in ast.walk(tree) if isinstance(n, ast.ClassDef)]:
+        for st in list(cls.body):
+            if not (isinstance(st, ast.Assign) and len(st.targets) == 1 and isinstance(st.targets[0], ast.Name) and isinstance(st.value, ast.Call)
+                    and isinstance(st.value.func, ast.Name) and st.value.func.id == 'property'):
+                continue
+            c = st.value
+            getter = c.args[0] if len(c.args) == 1 and not c.keywords else (
+                c.keywords[0].value if not c.args and len(c.keywords) == 1 and c.keywords[0].arg == 'fget' else None)
+            if not isinstance(getter, ast.Name):
+                continue
+            defs = [d for d in cls.body if isinstance(d, ast.FunctionDef) and d.name == getter.id]
+            if len(defs) != 1 or defs[0].decorator_list:
+                continue
+            uses = [n for n in ast.walk(tree) if (isinstance(n, ast.Name) and n.id == getter.id and n is not getter)
+                    or (isinstance(n, ast.Attribute) and n.attr == getter.id)]
+            new_name = st.targets[0].id
+            if uses or any(isinstance(d, (ast.FunctionDef, ast.ClassDef)) and d.name == new_name for d in cls.body):
+                continue
+            defs[0].name = new_name
+            defs[0].decorator_list = [ast.copy_location(ast.Name(id='property', ctx=ast.Load()), defs[0])]
+            cls.body.remove(st)
+            count += 1
+    if count:
+        ast.fix_missing_locations(tree)
+    return count
+
+
 def canonical_local(tree):
     """function-local canonical forms that do not need the reference: comprehensions and loops over small constant sequences are
     written out.  Applied to the reference tree before it is fingerprinted and to the analysed tree before it is compared."""
-    return dict_displays(tree) + unroll_constant_comprehensions(tree) + unroll_constant_loops(tree)
+    n = property_assignments(tree) + dict_displays(tree) + unroll_constant_comprehensions(tree) + unroll_constant_loops(tree)
+    return n + dict_displays(tree)          # a display written out of a comprehension may be completed by the item stores after it
 
 
 def inline_expression_helpers(tree, new):
@@ -1221,6 +1395,93 @@ def inline_expression_helpers(tree, new):
     for st in tree.body:
         T().visit(st)
     return n_done[0]
+
+
+def localise_new_tables(tree, known):
+    """a module-level table the reference does not have (`_REGION_LOADERS = {...}`, `_HEADER = [...]` hoisted out of a function)
+    is written back as a local of every function that reads it: bound once, at module level, to a display of literals and global
+    names; never rebound; only read (subscript loads, membership tests, iteration, read-only dict methods, arguments of calls)"""
+    stores = {}
+    for n in ast.walk(tree):
+        if isinstance(n, ast.Name) and not isinstance(n.ctx, ast.Load):
+            stores[n.id] = stores.get(n.id, 0) + 1
+        elif isinstance(n, (ast.Global, ast.Nonlocal)):
+            for x in n.names:
+                stores[x] = stores.get(x, 0) + 2
+        elif isinstance(n, ast.arg):
+            stores[n.arg] = stores.get(n.arg, 0) + 2
+
+    def simple(e):
+        if _is_literal(e):
+            return True
+        if isinstance(e, (ast.Name, ast.Attribute)):
+            return _is_global_ref(e) if isinstance(e, ast.Attribute) else True
+        if isinstance(e, (ast.List, ast.Tuple, ast.Set)):
+            return all(simple(x) for x in e.elts)
+        if isinstance(e, ast.Dict):
+            return all(k is not None and simple(k) for k in e.keys) and all(simple(v) for v in e.values)
+        return False
+    tables = {}
+    for st in tree.body:
+        if isinstance(st, ast.Assign) and len(st.targets) == 1 and isinstance(st.targets[0], ast.Name) \
+                and isinstance(st.value, (ast.List, ast.Dict, ast.Set, ast.Tuple)) and simple(st.value):
+            nm = st.targets[0].id
+            if nm not in known and stores.get(nm) == 1 and not (nm.startswith('__') and nm.endswith('__')):
+                tables[nm] = st.value
+    if not tables:
+        return []
+    # parent links, locally
+    par = {}
+    for n in ast.walk(tree):
+        for c in ast.iter_child_nodes(n):
+            par[c] = n
+    READ_METHODS = {'get', 'keys', 'items', 'values', 'index', 'count', 'copy'}
+    for n in ast.walk(tree):
+        if isinstance(n, ast.Name) and isinstance(n.ctx, ast.Load) and n.id in tables:
+            p_ = par.get(n)
+            ok = False
+            if isinstance(p_, ast.Subscript) and p_.value is n and isinstance(p_.ctx, ast.Load):
+                ok = True
+            elif isinstance(p_, ast.Compare) and n in p_.comparators:
+                ok = True
+            elif isinstance(p_, (ast.For, ast.comprehension)) and p_.iter is n:
+                ok = True
+            elif isinstance(p_, ast.Attribute) and p_.attr in READ_METHODS:
+                ok = True
+            elif isinstance(p_, ast.Call) and (n in p_.args):
+                ok = True
+            elif isinstance(p_, ast.keyword):
+                ok = True
+            elif isinstance(p_, ast.Starred):
+                ok = True
+            if not ok:
+                tables.pop(n.id, None)
+    if not tables:
+        return []
+    done = set()
+
+    def top_functions(body):
+        for st in body:
+            if isinstance(st, (ast.FunctionDef, ast.AsyncFunctionDef)):
+                yield st
+            elif isinstance(st, ast.ClassDef):
+                yield from top_functions(st.body)
+    for fn in top_functions(tree.body):
+        params, locs = local_names(fn)
+        # names read in the body (not in decorators / defaults, which are evaluated at module level)
+        read = {n.id for st in fn.body for n in ast.walk(st) if isinstance(n, ast.Name) and isinstance(n.ctx, ast.Load)}
+        ins = [nm for nm in tables if nm in read and nm not in params and nm not in locs]
+        if not ins:
+            continue
+        k = 1 if (fn.body and isinstance(fn.body[0], ast.Expr) and isinstance(getattr(fn.body[0], 'value', None), ast.Constant)
+                  and isinstance(fn.body[0].value.value, str)) else 0
+        for nm in reversed(ins):
+            st = ast.Assign(targets=[ast.Name(id=nm, ctx=ast.Store())], value=copy.deepcopy(tables[nm]), lineno=fn.lineno, col_offset=0)
+            ast.copy_location(st, fn.body[k] if k < len(fn.body) else fn)
+            fn.body.insert(k, st)
+            done.add(nm)
+    ast.fix_missing_locations(tree)
+    return sorted(done)
 
 
 # ------------------------------------------------------------------------------------------------ driver
@@ -1329,6 +1590,10 @@ def apply(prog):
         n_comp = unroll_constant_comprehensions(m.tree)
         if n_comp:
             prog.normalization.setdefault('comprehensions_unrolled', {})[m.name] = n_comp
+        if known_consts is not None:
+            done = localise_new_tables(m.tree, set(known_consts))
+            if done:
+                prog.normalization.setdefault('tables_localised', {})[m.name] = done
         n_unrolled = unroll_constant_loops(m.tree)
         if n_unrolled:
             prog.normalization.setdefault('loops_unrolled', {})[m.name] = n_unrolled
